@@ -63,6 +63,12 @@ def gen_path(rng, thorough):
         elif k == 10:
             t = (float(rng.randint(-15, 15)), float(rng.randint(-15, 15)), float(pos[2]) + rng.randint(0, 4))
             c = (float(rng.randint(-6, 6) or 3), float(rng.randint(-6, 6)))
+            # not on the knife-edge of Direction.enforce: a target at exactly the start angle is "zero sweep" or "a full
+            # turn" depending on one ulp of the accumulated position (binary64, not the distance mode)
+            dox, doy = -c[0], -c[1]
+            dtx, dty = t[0] - (float(pos[0]) + c[0]), t[1] - (float(pos[1]) + c[1])
+            if dox * dty - doy * dtx == 0 and dox * dtx + doy * dty >= 0:
+                t = (t[0] + 0.5, t[1] + 1.5, t[2])
             els.append(("helix", t, c, rng.randint(1, 2)))
             pos = [Fraction(v) for v in t]
         elif k == 11:
@@ -73,6 +79,8 @@ def gen_path(rng, thorough):
             pos = [Fraction(v) for v in t]
         elif k == 12:
             t = (float(pos[0]) + rng.randint(-9, 9) or 1.0, float(pos[1]) + rng.randint(-9, 9), float(pos[2]) + rng.randint(0, 2))
+            if t[1] == float(pos[1]) and t[0] >= float(pos[0]):
+                t = (t[0], t[1] + 0.5, t[2])       # same knife-edge: a target exactly along +x from the start
             els.append(("spiral", t, rng.randint(1, 2)))
             pos = [Fraction(v) for v in t]
         else:
